@@ -12,15 +12,16 @@ func GetNalusFromSample(sample []byte) ([][]byte, error) {
 		return nil, fmt.Errorf("less than 4 bytes, No NALUs")
 	}
 	naluList := make([][]byte, 0, 2)
-	var pos uint32 = 0
-	for pos < uint32(length-4) {
+	pos := 0
+	for pos < length-4 {
 		naluLength := binary.BigEndian.Uint32(sample[pos : pos+4])
 		pos += 4
-		if int(pos+naluLength) > len(sample) {
+		// compare without adding to pos: pos+naluLength may not fit in 32 bits
+		if int64(naluLength) > int64(length-pos) {
 			return nil, fmt.Errorf("NALU length fields are bad. Not video?")
 		}
-		naluList = append(naluList, sample[pos:pos+naluLength])
-		pos += naluLength
+		naluList = append(naluList, sample[pos:pos+int(naluLength)])
+		pos += int(naluLength)
 	}
 	return naluList, nil
 }
